@@ -461,7 +461,8 @@ class RangeConstraint(Constraint):
         # Convert value to numeric type
         try:
             numeric_value = float(value) if isinstance(value, int | float) else float(value)
-        except (ValueError, TypeError):
+        except (ValueError, TypeError, OverflowError):
+            # OverflowError: an integer beyond the float range (a 400-digit literal) is not in any RANGE
             return ValidationResult(
                 valid=False,
                 errors=[
